@@ -626,6 +626,20 @@ class Gen(object):
             b = {'allocations': [
                 {'resource_provider': {'uuid': rp}, 'resources': dict(res)}
                 for rp, res in alloc.items()]}
+            if alloc and self.chance(0.15):
+                # the list form may name a provider twice: the later entry
+                # replaces the earlier one entirely (the handler keys the
+                # entries by provider before looking at them)
+                rp = self.pick(sorted(alloc))
+                idx = [i for i, e in enumerate(b['allocations'])
+                       if e['resource_provider']['uuid'] == rp][0]
+                ghost = {rc: n + self.pick([1, 2, 7, 1000])
+                         for rc, n in alloc[rp].items()}
+                if self.chance(0.3):
+                    ghost[self.pick(self.all_rcs)] = 1
+                b['allocations'].insert(
+                    self.rng.randrange(0, idx + 1),
+                    {'resource_provider': {'uuid': rp}, 'resources': ghost})
         else:
             b = {'allocations': {rp: {'resources': dict(res)}
                                  for rp, res in alloc.items()}}
@@ -1041,4 +1055,6 @@ def op_brief(op):
         out['b'] = copy.deepcopy(op['b'])
     if op.get('defect') == 'schema':
         out['defect'] = 'schema'
+    if op.get('w'):
+        out['w'] = 1        # served by the second worker process
     return out
